@@ -86,7 +86,7 @@ def run(ctx):
         clause = [ln for ln in res.stdout.splitlines() if "FAILED-CLAUSE" in ln][:1]
         ctx.violation(dict(clause="design:" + (clause[0] if clause else res.violation)), case=dict(state=res.trace[-1:]), check="design")
     # ---- code -> spec
-    jobs = [(pats[i % len(pats)], corpus.random_state_kw(rng), corpus.random_date(rng, 2001, 2098)) for i in range(ctx.pick(6000, 300000))]
+    jobs = [(pats[i % len(pats)], corpus.random_state_kw(rng), corpus.random_date(rng, 2001, 2098)) for i in range(ctx.pick(6000, 100000))]
     events = [e for e in drive.pmap(_lib, jobs, hooks=False, chunksize=300) if e]
     ujobs = []
     for i in range(ctx.pick(400, 20000)):
